@@ -141,14 +141,17 @@ djb_t *djb_compile(mzd_t *A) {
 
 void djb_apply_mzd(djb_t *m, mzd_t *W, const mzd_t *V) {
   assert(W->width == V->width);
+  /* W and V may be windows: the bits beyond the last column belong to their parents */
+  wi_t const wide = W->width - 1;
+  word const mask = W->high_bitmask;
   rci_t i = m->length;
   while (i > 0) {
     --i;
-    if (m->srctyp[i] == source_source) {
-      _mzd_combine(mzd_row(W, m->target[i]), mzd_row_const(V, m->source[i]), W->width);
-    } else {
-      _mzd_combine(mzd_row(W, m->target[i]), mzd_row_const(W, m->source[i]), W->width);
-    }
+    word *t       = mzd_row(W, m->target[i]);
+    word const *s = (m->srctyp[i] == source_source) ? mzd_row_const(V, m->source[i])
+                                                    : mzd_row_const(W, m->source[i]);
+    if (wide > 0) _mzd_combine(t, s, wide);
+    t[wide] ^= s[wide] & mask;
   }
 }
 
